@@ -8,6 +8,8 @@ Import ListNotations.
 Local Open Scope nat_scope.
 
 Definition schain (t : text) (p : nat) : list elem := scan_str t p (S (S (tlen t))).
+(* the text read from p up to rs is white space only *)
+Definition sblank (t : text) (p rs : nat) : bool := all_space (firstn (rs - p) (skipn p (t_bytes t))).
 
 (* how a return code of advance relates to the class the cursor reports *)
 Definition amatch (a : aclass) (r : Z) : Prop :=
@@ -27,6 +29,7 @@ Lemma scan_str_S t p f : scan_str t p (S f) =
   | (r, v) =>
       if (r <? 0)%Z then [EErr r] else
       let rs := zpos p' r in
+      if sblank t p rs then [EErr MissingData] else
       let e := match v with Some v => EV v | None => EUnset end in
       if Nat.ltb rs (tlen t) then e :: scan_str t (S rs) f else [e]
   end.
@@ -38,6 +41,7 @@ Proof.
   induction f1 as [|f1 IH]; intros f2 p H1 H2 G1 G2; [lia|]. destruct f2 as [|f2]; [lia|].
   rewrite !scan_str_S. destruct (byte_at t p =? 0)%N; [reflexivity|]. cbv zeta.
   destruct (cdouble t (skip_space_at t p)) as [r v]. destruct (r <? 0)%Z eqn:R; [reflexivity|].
+  destruct (sblank t p (zpos (skip_space_at t p) r)); [reflexivity|].
   destruct (Nat.ltb_spec (zpos (skip_space_at t p) r) (tlen t)) as [L|L]; [|reflexivity].
   f_equal. pose proof (skip_at_ge t p). apply Z.ltb_ge in R.
   assert (p <= zpos (skip_space_at t p) r) by (unfold zpos; lia).
@@ -51,12 +55,14 @@ Lemma schain_step t p : schain t p =
   | (r, v) =>
       if (r <? 0)%Z then [EErr r] else
       let rs := zpos p' r in
+      if sblank t p rs then [EErr MissingData] else
       let e := match v with Some v => EV v | None => EUnset end in
       if Nat.ltb rs (tlen t) then e :: schain t (S rs) else [e]
   end.
 Proof.
   unfold schain at 1. rewrite scan_str_S. destruct (byte_at t p =? 0)%N; [reflexivity|]. cbv zeta.
   destruct (cdouble t (skip_space_at t p)) as [r v]. destruct (r <? 0)%Z eqn:R; [reflexivity|].
+  destruct (sblank t p (zpos (skip_space_at t p) r)); [reflexivity|].
   destruct (Nat.ltb_spec (zpos (skip_space_at t p) r) (tlen t)) as [L|L]; [|reflexivity].
   f_equal. unfold schain. apply sscan_fuel; lia.
 Qed.
@@ -64,7 +70,8 @@ Qed.
 Lemma schain_nonempty t p : schain t p <> [].
 Proof.
   rewrite schain_step. destruct (_ =? _)%N; [discriminate|]. cbv zeta.
-  destruct (cdouble _ _) as [r v]. destruct (_ <? _)%Z; [discriminate|]. destruct (Nat.ltb _ _); discriminate.
+  destruct (cdouble _ _) as [r v]. destruct (_ <? _)%Z; [discriminate|]. destruct (sblank _ _ _); [discriminate|].
+  destruct (Nat.ltb _ _); discriminate.
 Qed.
 
 Definition inv_str (m : stri) : Prop :=
@@ -78,7 +85,8 @@ Definition inv_str (m : stri) : Prop :=
       | Some rs =>
           byte_at (s_text m) p <> 0%N /\
           exists r v, cdouble (s_text m) (skip_space_at (s_text m) p) = (r, v) /\ (0 <= r)%Z /\
-                      rs = zpos (skip_space_at (s_text m) p) r /\ rs < tlen (s_text m)
+                      rs = zpos (skip_space_at (s_text m) p) r /\ rs < tlen (s_text m) /\
+                      sblank (s_text m) p rs = false
       end
   end.
 
@@ -113,13 +121,25 @@ Proof.
       split; [|reflexivity]. rewrite abs_str, V, RN, (schain_step (s_text m) p).
       destruct (N.eqb_spec (byte_at (s_text m) p) 0); [contradiction|]. cbv zeta. rewrite C.
       destruct (Z.ltb_spec r 0); [reflexivity|lia].
-    + rewrite E. destruct (Nat.ltb_spec (zpos (skip_space_at (s_text m) p) r) (tlen (s_text m))) as [L|L].
+    + unfold sblank.
+      destruct (all_space (firstn (zpos (skip_space_at (s_text m) p) r - p) (skipn p (t_bytes (s_text m))))) eqn:BL.
+      { (* white space only: no element, nothing changes; no terminator can be pending *)
+        assert (RN : s_restore m = None).
+        { destruct (s_restore m) as [rs|]; [|reflexivity]. destruct R as [_ [r' [v' [C' [P' [-> [_ NB]]]]]]].
+          try rewrite C in C'. injection C' as <- <-. unfold sblank in NB. rewrite BL in NB. discriminate. }
+        split; [split; [assumption|rewrite V; rewrite RN; auto]|].
+        split; [|reflexivity]. rewrite abs_str, V, RN, (schain_step (s_text m) p).
+        destruct (N.eqb_spec (byte_at (s_text m) p) 0); [contradiction|]. cbv zeta. rewrite C.
+        destruct (Z.ltb_spec r 0); [lia|]. unfold sblank. rewrite BL. reflexivity. }
+      rewrite E. destruct (Nat.ltb_spec (zpos (skip_space_at (s_text m) p) r) (tlen (s_text m))) as [L|L].
       * split; [|split].
-        -- unfold inv_str, str_set. cbn. repeat split; auto. exists r, v. auto.
+        -- unfold inv_str, str_set. cbn [s_text s_base s_val s_end s_restore].
+           split; [assumption|]. split; [reflexivity|]. split; [assumption|]. split; [assumption|].
+           exists r, v. unfold sblank. auto.
         -- rewrite abs_str. unfold str_set. cbn [s_text s_base s_val s_end s_restore flag].
            rewrite (schain_step (s_text m) p).
            destruct (N.eqb_spec (byte_at (s_text m) p) 0); [contradiction|]. cbv zeta. rewrite C.
-           destruct (Z.ltb_spec r 0); [lia|].
+           destruct (Z.ltb_spec r 0); [lia|]. unfold sblank. rewrite BL.
            destruct (Nat.ltb_spec (zpos (skip_space_at (s_text m) p) r) (tlen (s_text m))); [|lia].
            destruct (schain (s_text m) (S (zpos (skip_space_at (s_text m) p) r))) eqn:SC;
              [exfalso; exact (schain_nonempty _ _ SC)|].
@@ -130,7 +150,7 @@ Proof.
         -- rewrite abs_str. unfold str_set. cbn [s_text s_base s_val s_end s_restore flag].
            rewrite (schain_step (s_text m) p).
            destruct (N.eqb_spec (byte_at (s_text m) p) 0); [contradiction|]. cbv zeta. rewrite C.
-           destruct (Z.ltb_spec r 0); [lia|].
+           destruct (Z.ltb_spec r 0); [lia|]. unfold sblank. rewrite BL.
            destruct (Nat.ltb_spec (zpos (skip_space_at (s_text m) p) r) (tlen (s_text m))); [lia|].
            reflexivity.
         -- cbn. now destruct v.
@@ -158,13 +178,13 @@ Proof.
     cbn [s_text s_base s_val s_end s_restore]. rewrite RN. cbn [flag s_advance].
     destruct (schain (s_text m) p); [contradiction|]. split; reflexivity.
   - destruct (s_restore m) as [rs|] eqn:RS.
-    + destruct R as [NZ [r [v [C [P [-> L]]]]]].
+    + destruct R as [NZ [r [v [C [P [-> [L NB]]]]]]].
       split.
       * unfold inv_str, str_set. cbn. repeat split; auto.
       * exists AMore. rewrite abs_str. unfold str_set. cbn [s_text s_base s_val s_end s_restore flag].
         rewrite (schain_step (s_text m) p).
         destruct (N.eqb_spec (byte_at (s_text m) p) 0); [contradiction|]. cbv zeta. rewrite C.
-        destruct (Z.ltb_spec r 0); [lia|].
+        destruct (Z.ltb_spec r 0); [lia|]. rewrite NB.
         destruct (Nat.ltb_spec (zpos (skip_space_at (s_text m) p) r) (tlen (s_text m))); [|lia].
         cbn [s_advance]. split; [reflexivity|reflexivity].
     + split; [unfold inv_str, str_set; cbn; auto|]. exists AEnd. rewrite abs_str. unfold str_set.
